@@ -47,7 +47,7 @@ class Group:
                  unwindset=None, checks=None, floats=False, backend='sat', timeout=600, mem_gb=24,
                  tier='quick', defines=(), canary=True, min_props=1, expect_loop_props=0, object_bits=12,
                  rec=False, note='', extra_cbmc=(), no_unwind_funcs=(), property_ids=None, covers=None,
-                 slice_=False, cases=None, mode='dfcc', m_pre=''):
+                 slice_=False, cases=None, mode='dfcc', m_pre='', bounded=''):
         self.__dict__.update(locals())
         del self.__dict__['self']
 
@@ -73,7 +73,8 @@ def prove_group(cfile, g, workdir, canary=False):
     base = os.path.join(workdir, re.sub(r'[^\w.]', '_', tag))
     res = {'group': g.name, 'canary': canary, 'harness': g.harness, 'enforce': g.enforce,
            'replace': list(g.replace), 'backend': g.backend, 'status': 'undecided', 'reason': '',
-           'props': 0, 'ok': 0, 'failed': [], 'secs': 0.0, 'samples': [], 'loop_props': 0}
+           'props': 0, 'ok': 0, 'failed': [], 'secs': 0.0, 'samples': [], 'loop_props': 0,
+           'bounded': getattr(g, 'bounded', ''), 'note': getattr(g, 'note', '')}
     t0 = time.time()
     defs = ['-D' + d for d in g.defines] + (['-DCANARY'] if canary else [])
     gb0 = base + '.0.gb'
